@@ -4,6 +4,7 @@ CONSTANTS
   Catalogue <- MCCatalogue
   GuardEnabled = TRUE
   NoThread = 0
+  RecursiveScrape = FALSE
 INVARIANT Emit
 VIEW GView
 CHECK_DEADLOCK FALSE
